@@ -1,7 +1,7 @@
 (* Props/C05.v — property theorems only. *)
 From Coq Require Import List NArith ZArith.
 From N0 Require Import Base.PyStr Base.PyVal Xpath.Dec Xpath.DecProofs Xpath.Token Xpath.TokenProofs
-  Xpath.Find Xpath.FindProofs Xpath.Write Xpath.SpecProofs Xpath.WalkProofs Xpath.DeleteProofs.
+  Xpath.Find Xpath.FindProofs Xpath.Write Xpath.SpecProofs Xpath.WalkProofs Xpath.DeleteProofs Xpath.DeleteFrame.
 Import ListNotations.
 
 (* delete(xpath) on a path that spells an existing node (relative, '/'- or '//'-rooted,
@@ -78,6 +78,27 @@ Print Assumptions C05_removed_key_gone.
 Theorem C05_list_shrinks_by_one : forall (l : list tree) i, i < length l -> length (del_nth i l) = length l - 1.
 Proof. exact (@del_nth_length tree). Qed.
 Print Assumptions C05_list_shrinks_by_one.
+
+(* ... and what the removal does not change: every other key keeps its value, the
+   remaining entries keep their order; every other list element keeps its value,
+   those behind the removed one move up by exactly one place. *)
+Theorem C05_other_keys_kept : forall (k k2 : pstr) (kvs : list (pstr * tree)),
+  k2 <> k -> lookup k2 (remove_key k kvs) = lookup k2 kvs.
+Proof. exact (@lookup_remove_key_other tree). Qed.
+Print Assumptions C05_other_keys_kept.
+
+Theorem C05_remaining_entries_in_order : forall (k : pstr) (kvs : list (pstr * tree)),
+  NoDup (map fst kvs) ->
+  remove_key k kvs = filter (fun kv => negb (pstr_eqb k (fst kv))) kvs.
+Proof. exact (@remove_key_filter tree). Qed.
+Print Assumptions C05_remaining_entries_in_order.
+
+Theorem C05_other_elements_kept : forall (l : list tree) i,
+  del_nth i l = firstn i l ++ skipn (S i) l /\
+  (forall j d, j < i -> nth j (del_nth i l) d = nth j l d) /\
+  (forall j d, i <= j -> nth j (del_nth i l) d = nth (S j) l d).
+Proof. exact (fun l i => conj (del_nth_firstn_skipn l i) (conj (fun j d => del_nth_before l i j d) (fun j d => del_nth_after l i j d))). Qed.
+Print Assumptions C05_other_elements_kept.
 
 Theorem C05_delete_is_local : forall t q r u,
   r <> [] -> resolve t q = Some u -> delete_at t (q ++ r) = replace_at t q (delete_at u r).
